@@ -1317,8 +1317,35 @@ def header_exprs(tree):
     return out
 
 
+# multi-line statements that do not start at column 0 (after `;`, on a block header line) with multi-byte text before them
+# on their first line: a raw edit inside them reparses the statement from padded source
+RAW_STMT_SHAPES = [
+    'é = 1; x = [a,\n     b]',
+    "'日本'; y = f(a,\n   b, c)\nz",
+    'if é: x = [a,\n  b]',
+    'if é:\n    ü = 1; x = (a +\n        b)\n',
+    'while é: x = {a: 1,\n   b: 2}; y',
+    'class é: x = [a,\n  b]',
+    'def f(): "é"; return [a,\n  b]',
+    'for é in ü: x = a; y = g(b,\n  c)\nelse: z = [d,\n  e]',
+    'try: é\nexcept ü: x = [a,\n  b]',
+    'x = [a,\n     b]',
+    'é; x = a',
+    'é = 1; x = [a, b]',
+]
+
+
 def raw_product():
     out = []
+    for src in RAW_STMT_SHAPES:
+        tree = ast.parse(src)
+        nodes = enum_nodes(tree)
+        pre = [[list(map(list, p)), q] for p, _ in nodes for q in ('loc', 'bloc', 'pars', 'links', 'nav', 'views', 'src')]
+        for p, a in nodes:
+            if isinstance(a, ast.Name) and isinstance(a.ctx, ast.Load) and a.id.isascii():
+                for code in RAW_CODES:
+                    out.append((src, [{'pre': pre, 'op': {'op': 'raw_replace', 'path': list(map(list, p)), 'code': code}}]))
+                    out.append((src, [{'pre': pre, 'op': {'op': 'reparse', 'path': list(map(list, p)), 'code': code}}]))
     for src in RAW_SHAPES:
         tree = ast.parse(src)
         nodes = enum_nodes(tree)
